@@ -102,7 +102,7 @@ func (noReorgs) GetLastReorgEvent(context.Context) (reorgdetector.ReorgEvent, er
 }
 
 func waitProcessed(get func() (uint64, error), target uint64) error {
-	dl := time.Now().Add(20 * time.Second)
+	dl := time.Now().Add(180 * time.Second)
 	for time.Now().Before(dl) {
 		n, err := get()
 		if err == nil && n >= target {
@@ -110,7 +110,7 @@ func waitProcessed(get func() (uint64, error), target uint64) error {
 		}
 		time.Sleep(2 * time.Millisecond)
 	}
-	return fmt.Errorf("INCONCLUSIVE: syncer did not reach block %d within 20s", target)
+	return fmt.Errorf("INCONCLUSIVE: syncer did not reach block %d within 180s", target)
 }
 
 // ---- C01 EVM leg ----
